@@ -197,7 +197,7 @@ def w_step(n0: int, slots: int, cmd: int, a: int, b: int, top_sticky: bool) -> s
     pre: 0 <= n0 <= 3 and 0 <= slots < 72 and 0 <= cmd < 6 and 0 <= a < 3 and 0 <= b < 4
     post: _ == ''
     """
-    return _step_case(rt.sel(n0, 4), rt.sel(slots, 72), rt.sel(cmd, 6), rt.sel(a, 3), rt.sel(b, 4), [False, True][top_sticky])
+    return _step_case(rt.sel(n0, 4), rt.sel(slots, 72), rt.sel(cmd, 6), rt.sel(a, 3), rt.sel(b, 4), rt.selb(top_sticky))
 
 
 def w_hist(c0: int, c1: int, c2: int, a: int, b: int) -> str:
